@@ -231,6 +231,50 @@ fn run_typed<L: Dimacs + 'static>(fmt: &str, cfg: bool, src: SchedSource, chunk:
     }
 }
 
+/// A user-defined literal type with a small `MAX_DIMACS` that enforces the trait's contract
+/// (`from_dimacs` is only ever given a non-zero value of magnitude at most `MAX_DIMACS`).
+#[derive(Clone, Copy, PartialEq, Eq, Debug)]
+pub struct ChkD<const M: isize>(isize);
+
+impl<const M: isize> Dimacs for ChkD<M> {
+    const MAX_DIMACS: isize = M;
+    fn from_dimacs(value: isize) -> Self {
+        assert!(value != 0 && value.unsigned_abs() <= M as usize, "from_dimacs({}) outside 1..={}", value, M);
+        ChkD(value)
+    }
+    fn dimacs(self) -> isize {
+        self.0
+    }
+}
+
+/// The document parsed with the checked literal type whose `MAX_DIMACS` is `m` (1..=16).
+pub fn run_parser_chk(fmt: &str, cfg: bool, src: SchedSource, m: usize) -> Option<RunObs> {
+    let r = catch(|| match m {
+        1 => run_typed::<ChkD<1>>(fmt, cfg, src.clone(), 16384),
+        2 => run_typed::<ChkD<2>>(fmt, cfg, src.clone(), 16384),
+        3 => run_typed::<ChkD<3>>(fmt, cfg, src.clone(), 16384),
+        4 => run_typed::<ChkD<4>>(fmt, cfg, src.clone(), 16384),
+        5 => run_typed::<ChkD<5>>(fmt, cfg, src.clone(), 16384),
+        6 => run_typed::<ChkD<6>>(fmt, cfg, src.clone(), 16384),
+        7 => run_typed::<ChkD<7>>(fmt, cfg, src.clone(), 16384),
+        8 => run_typed::<ChkD<8>>(fmt, cfg, src.clone(), 16384),
+        9 => run_typed::<ChkD<9>>(fmt, cfg, src.clone(), 16384),
+        10 => run_typed::<ChkD<10>>(fmt, cfg, src.clone(), 16384),
+        11 => run_typed::<ChkD<11>>(fmt, cfg, src.clone(), 16384),
+        12 => run_typed::<ChkD<12>>(fmt, cfg, src.clone(), 16384),
+        13 => run_typed::<ChkD<13>>(fmt, cfg, src.clone(), 16384),
+        14 => run_typed::<ChkD<14>>(fmt, cfg, src.clone(), 16384),
+        15 => run_typed::<ChkD<15>>(fmt, cfg, src.clone(), 16384),
+        16 => run_typed::<ChkD<16>>(fmt, cfg, src.clone(), 16384),
+        _ => RunObs { items: vec![], fin: "SKIP".into() },
+    });
+    match r {
+        Some(o) if o.fin == "SKIP" => None,
+        Some(o) => Some(o),
+        None => Some(RunObs { items: vec![], fin: "E:panic".into() }),
+    }
+}
+
 pub fn run_parser(fmt: &str, ty: &str, cfg: bool, src: SchedSource, chunk: usize) -> RunObs {
     let r = catch(|| match ty {
         "i8" => run_typed::<i8>(fmt, cfg, src.clone(), chunk),
@@ -625,6 +669,17 @@ pub fn run_case(line: &str) -> (String, Vec<String>) {
     }
     if base.fin == "E:panic" {
         fails.push("C05:parser panicked".into());
+    }
+    // ---- C05 with a user-defined literal type: literals beyond its MAX_DIMACS are an error, they
+    // are never handed to `from_dimacs`
+    if delivered.len() <= 2048 {
+        for m in [1 + delivered.len() % 16, 1 + (delivered.len() / 16 + 7) % 16] {
+            if let Some(o) = run_parser_chk(&c.fmt, c.cfg, mk(vec![]), m) {
+                if o.fin == "E:panic" {
+                    fails.push(format!("C05:parser panicked with a literal type whose MAX_DIMACS is {} (from_dimacs outside its range, or another panic)", m));
+                }
+            }
+        }
     }
     // ---- C04: a failing source ends in an I/O error (or the fault-free run's own syntax error)
     if fault {
